@@ -186,6 +186,102 @@ def norm_tree(t, parent=None):
     return (kind, tuple(kids))
 
 
+WS_MODES_MARKUP = ('Markup',)
+WS_MODES_MATH = ('Math', 'MathDelimited')        # (around sub/superscript, fraction and root operators Typst ignores whitespace)
+
+
+def eval_tree(t, parent=None, root=True):
+    """the tree as evaluation sees it: like norm_tree, but whitespace that Typst's evaluator can see is kept - in markup a Space between two
+    siblings (one marker, whether it holds a line break or not: both are a space to Typst) and a Parbreak; in math a Space between two
+    siblings; the blank at the inner edges of a content block / strong / emph body.  Dropped: whitespace in code, at the edges of the document,
+    of heading and list-item bodies and directly around a comment (a comment may move), the indentation that follows a line break."""
+    kind, x = t
+    if not isinstance(x, list):
+        if kind in ('Comma', 'LineComment', 'BlockComment', 'RawTrimmed'):
+            return None
+        if kind == 'Space':
+            return ('Space',) if parent in WS_MODES_MARKUP + WS_MODES_MATH else None
+        if kind == 'Parbreak':
+            return ('Parbreak',)
+        if kind == 'Semicolon' and parent not in ('Args', 'Math', 'MathDelimited'):
+            return None
+        if kind in ('LeftParen', 'RightParen') and parent in OPTIONAL_PAREN_OWNERS:
+            return None
+        if kind == 'Colon' and parent == 'Dict':
+            return None
+        return (kind, x)
+    if kind == 'Markup':
+        x2 = []
+        run = None
+        pending = False
+        for c in x:
+            if c[0] == 'Text':
+                run = c[1] if run is None else (run + ' ' + c[1] if pending else run + c[1])
+                pending = False
+                continue
+            if c[0] == 'Space' and run is not None and not any(ord(ch) in T.TYPST_NEWLINES for ch in c[1]):
+                pending = True
+                continue
+            if run is not None:
+                x2.append(('Text', run))
+                if pending:
+                    x2.append(('Space', ' '))
+                run = None
+            pending = False
+            x2.append(c)
+        if run is not None:
+            x2.append(('Text', run))
+            if pending:
+                x2.append(('Space', ' '))
+        x = x2
+    kids = [eval_tree(c, kind, False) for c in x]
+    # a comment may move across the blank next to it: blanks around comments are not compared
+    raw_kinds = [c[0] for c in x]
+    keep = []
+    for i, k in enumerate(kids):
+        if k is None:
+            continue
+        if k == ('Space',):
+            near = [raw_kinds[j] for j in (i - 1, i + 1) if 0 <= j < len(raw_kinds)]
+            if any(n in ('LineComment', 'BlockComment') for n in near):
+                continue
+            if keep and keep[-1] in (('Space',), ('Parbreak',)):
+                continue
+            # next to a block-level element (list / enum / term item, heading) a blank is swallowed by the block
+            if any(n in ('ListItem', 'EnumItem', 'TermItem', 'Heading') for n in near):
+                continue
+        if k == ('Parbreak',) and keep and keep[-1] == ('Space',):
+            keep.pop()
+        keep.append(k)
+    kids = keep
+    trims_edges = (kind == 'Markup' and (root or parent in ('Heading', 'ListItem', 'EnumItem', 'TermItem'))) or kind in ('Heading', 'ListItem', 'EnumItem', 'TermItem')
+    if trims_edges:
+        while kids and kids[0] in (('Space',), ('Parbreak',)):
+            kids.pop(0)
+        while kids and kids[-1] in (('Space',), ('Parbreak',)):
+            kids.pop()
+    if kind == 'Parenthesized':
+        inner = [k for k in kids if k[0] not in ('LeftParen', 'RightParen')]
+        if len(inner) == 1:
+            return inner[0]
+    if kind == 'CodeBlock':
+        inner = [k for k in kids if k[0] not in ('LeftBrace', 'RightBrace')]
+        if len(inner) == 1 and inner[0][0] == 'Code' and len(inner[0][1]) == 1:
+            return inner[0][1][0]
+    if kind == 'Raw':
+        return ('Raw', tuple(k for k in kids if k[0] in ('RawDelim', 'RawLang')))
+    if kind == 'Equation':
+        block = len(x) > 1 and x[1][0] == 'Space'
+        kids = [k for k in kids if k != ('Space',)]
+        return ('Equation', block, tuple(kids))
+    return (kind, tuple(kids))
+
+
+def raw_lines(S, text):
+    r = S.driver.call('rawtexts', hexs(text))
+    return tuple(r[1:]) if r[0] == 'ok' else None
+
+
 def first_difference(a, b, path='root'):
     if a == b:
         return None
@@ -210,6 +306,15 @@ BLOCK_DOCS = [
     '#let x = [ #{/* c */ a}]\n', '#let x = [ #{a; b}]\n', '#let x = [#{a; b} ]\n', '#f[ #g(a,\n b)]\n', '#[ a\nb ]\n', '#[\n a ]\n', '#[ a\n]\n', '#let x = { [ a ] }\n', '#f(a)[ b ][c ]\n',
     '#let x = [ #f(// c\n a)]\n', '#[ - a\n  b]\n', 'text #box[- a\n  b]\n', '#{ /* c */ }\n', '#{/* c */ a }\n', '#( /* c */ a)\n', '#f( /* c */\n)\n', '#let f( /* c */ ) = 1\n',
     '#if a { b } else [ c ]\n', '#show: it => [ #it ]\n', '#a.b[ c ].d\n', '= H #[ a ]\n', '- a #[ b\n  c ]\n', '#f(x => [ y ])\n', '#(a: [ b ], c: { d })\n',
+]
+EVAL_DOCS = [
+    # blanks evaluation can see
+    '#f[ a ]\n', '#f[a ]\n', '#f[ a]\n', '#f[a]\n', '#[ *b* ]\n', '*a *\n', '* a*\n', '_ a _\n', '#strong[ a ] b\n', 'a #f(1) b\n', 'a#f(1)b\n', 'a #x b\n', 'a#[b]c\n', 'a #[b] c\n',
+    'a *b*c\n', 'a\nb\n', 'a\n\nb\n', 'a\n\n\n\nb\n', '#[a\n\nb]\n', '#[a\nb]\n', '= H\ntext\n', '= H\n\ntext\n', '- a\n- b\n\n- c\n', 'a \\\nb\n', 'a\\ b\n',
+    '$a b$\n', '$ab$\n', '$a  b$\n', '$ a b $\n', '$(a b)$\n', '$( a )$\n', '$f(a b)$\n', '$a\nb$\n', '$ a \\\n b $\n', '$a + b$\n', '$a+b$\n', '$x_1 y$\n', '$x _1$\n', '$1/2 x$\n',
+    '#let x = [a] + [ b ]\n', '#f[a][ b ][c ]\n', '#f(x)[ y]\n', '#table(columns: 2, [ a ], [b ])\n', '#figure(caption: [ c ])[ d ]\n', '#show: it => [ #it ]\n',
+    '`a  b`\n', '```\n  a\n b\n```\n', '- ```py\n  x = 1\n    y\n  ```\n', '#[```\n a\n```]\n', '#f(```\n  a\n  ```)\n', '"a  b"\n', '#"a  b"\n', '#let s = "a\n  b"\n',
+    'a<l>\n', 'a <l>\n', '@r a\n', '@r[s] a\n', 'https://a.b c\n', "a 'b' c\n", 'a -- b --- c\n', 'a~b\n', '#h(1em)a\n', '#h(1em) a\n', '/ T: d\n/ U : e\n', '+ a\n  b\n',
 ]
 MISC_DOCS = [
     '#{\n  1. .abs()\n}\n', '$a_* /* c */^2$\n', '#f(a, ..b, c: d)[e]\n', '#let (a, (b, c)) = d\n', '#import "a.typ" : *\n', '#import "a.typ" as b\n', '#include  "a.typ"\n',
@@ -291,12 +396,27 @@ def explore(S, docs, tabs=(2,), prop='C03', widths=(0, 40, 1 << 30)):
                     tree2 = parse(t1)
                     if tree2 is None:
                         S.absorb(m)
-                        ctx.must_hold(False, '%s:output-does-not-parse' % ('C04' if prop in ('C01', 'C04') else prop), lambda mdl: dict(describe(mdl), first=t1))
+                        ctx.must_hold(False, '%s:output-does-not-parse' % ('C04' if prop in ('C01', 'C04', 'C02') else prop), lambda mdl: dict(describe(mdl), first=t1))
                         return
                     if prop == 'C04':
                         S.absorb(m)
                         ctx.must_hold(True, 'C04:output-does-not-parse')
                         ctx.witness('output parsed')
+                        return
+                    if prop == 'C02':
+                        S.absorb(m)
+                        try:
+                            src_model = None
+                            n1 = eval_tree(tree)
+                        except Exception:
+                            n1 = None
+                        n2 = eval_tree(tree2)
+                        diff = first_difference(n1, n2)
+                        ctx.must_hold(diff is None, 'C02:evaluation-visible-tree-changed', lambda mdl: dict(describe(mdl), first=t1, difference=diff))
+                        if src.count('`') >= 2:
+                            ctx.must_hold(raw_lines(S, src) == raw_lines(S, t1) or any(ch not in ' \n' for tk in deep.leaf_list(tree) if tk[0] in ('Space', 'Parbreak') for ch in tk[1]), 'C02:raw-text-changed',
+                                          lambda mdl: dict(describe(mdl), first=t1))
+                        ctx.witness('trees compared')
                         return
                     if prop == 'C01':
                         S.absorb(m)
@@ -341,7 +461,7 @@ def confirm(S, info, prop='C03'):
     src = info['source']
     if S.driver.call('erroneous', hexs(src))[1] == '1':
         return None
-    if prop in ('C01', 'C04'):
+    if prop in ('C01', 'C04', 'C02'):
         t_src = deep.tree_of(S, src)
         for w in (info['width'], 0, 80, 40, 20, 1 << 20):
             a = S.driver.call('format', hexs(src), w, info.get('tab', 2), info.get('reorder', 0))
@@ -352,6 +472,13 @@ def confirm(S, info, prop='C03'):
             if t_out is None:
                 return dict(api='Typstyle::format_content', source=src, width=w, tab=info.get('tab', 2), output=out,
                             what='well-formed %s is formatted to text with syntax errors (width %d): %s' % (show(src), w, show(out)))
+            if prop == 'C02' and t_src is not None:
+                d = first_difference(eval_tree(t_src), eval_tree(t_out))
+                if d is None and raw_lines(S, src) != raw_lines(S, out):
+                    d = 'the text Typst extracts from a raw element changes'
+                if d:
+                    return dict(api='Typstyle::format_content', source=src, width=w, tab=info.get('tab', 2), output=out, difference=d,
+                                what='what evaluation sees of %s changes when formatted (width %d) to %s: %s' % (show(src), w, show(out), d))
             if prop == 'C01' and t_src is not None:
                 d = first_difference(norm_tree(t_src), norm_tree(t_out))
                 if d:
@@ -382,7 +509,7 @@ def site_of(src):
 def report(S, prop, found):
     groups = {}
     for lab, info in found:
-        if lab.startswith(prop + ':') or (prop == 'C01' and lab.startswith('C04:')):
+        if lab.startswith(prop + ':') or (prop in ('C01', 'C02') and lab.startswith('C04:')):
             groups.setdefault((lab, site_of(info.get('seed', ''))), []).append(info)
     for (lab, site), infos in sorted(groups.items()):
         hit = None
